@@ -100,11 +100,11 @@ let c15_run (c : case) : string =
   let tytbl = Hashtbl.create 16 in
   let tn = List.map (fun t -> match Hashtbl.find_opt tytbl t with
     | Some k -> k | None -> let k = n_of_int (Hashtbl.length tytbl + 1) in Hashtbl.add tytbl t k; k) tys in
-  let h = List.fold_left (fun h b -> Stdlib.fst (add_block h b)) (empty_hdr true) (rg_blocks g tn) in
+  let h = rb_header g tn in
   let nids = List.map n_of_int ids in
-  let referenced = c15_count (fun i -> is_referenced h i true) nids in
-  let referenced_np = c15_count (fun i -> is_referenced h i false) nids in
-  let refsum = List.fold_left (fun a i -> a + int_of_n (ref_count h i true)) 0 nids in
+  let referenced = c15_count (fun i -> rb_is_referenced h i true) nids in
+  let referenced_np = c15_count (fun i -> rb_is_referenced h i false) nids in
+  let refsum = List.fold_left (fun a i -> a + int_of_n (rb_ref_count h i true)) 0 nids in
   put "rf" (Printf.sprintf "%d,%d,%d" referenced referenced_np refsum);
   let nc = rg_node_children g in
   let parents = List.map (fun i -> rb_get_parent_node nc i) nids in
@@ -144,8 +144,8 @@ let c15_run (c : case) : string =
   put "ntgd" (String.concat "," (List.map string_of_int diverging));
   (* DeleteUnreferencedBlocks<NiObject>(root) *)
   (if unk then put "du" (Printf.sprintf "0/%d" n)
-   else match delete_unreferenced (nat_of_int (n + 1)) (fun _ -> true) h root N0 with
-     | Ok (h', cnt) -> put "du" (Printf.sprintf "%s/%s" (str_of_n cnt) (str_of_n h'.nblocks))
+   else match rb_prune (nat_of_int (n + 1)) h root with
+     | Ok (cnt, left) -> put "du" (Printf.sprintf "%s/%s" (str_of_n cnt) (str_of_n left))
      | Fault -> put "du" "FAULT" | OutOfFuel -> put "du" "OUTOFFUEL");
   (* the sorter *)
   let fuel = rb_sort_fuel g in
